@@ -170,7 +170,7 @@ def chk_corner(root, i, il_spec):
 def chk_refusal(root, form, arg):
     r = pub_root(root)
     node = hdscen.impl_root(r)
-    before = len(node.children)
+    before = len(hdscen.kids(node))
     if form == "ckd":
         st, out = attempt(node.ckd, arg)
     elif form == "derive_path":
@@ -188,8 +188,8 @@ def chk_refusal(root, form, arg):
         n = stack.pop()
         if n.index >= H and n is not node:
             return "violation", True, [V("%s:%s:hardened-from-public:stored" % (P, form), "a hardened child %s was stored below a public node" % n)]
-        stack.extend(n.children)
-    if form == "ckd" and len(node.children) != before:
+        stack.extend(hdscen.kids(n))
+    if form == "ckd" and len(hdscen.kids(node)) != before:
         return "violation", True, [V(P + ":ckd:hardened-from-public:children-grew", "children list grew although ckd(%r) raised" % arg)]
     return ("refused-hardened" if in_range else "refused-out-of-range"), True, []
 
@@ -256,6 +256,29 @@ def run(ctx):
     from ..bfs import eviction_probe
     eviction_probe(ctx, "same-node-histories+revisits", SameNodeHistories(), lambda i: ["ckd", i], sizes=(1, 2, 3, 4, 5, 8, 9, 16, 17, 20, 21, 32, 33))
     long_histories(ctx, "cross-root-histories+long", CrossRootHistories(), rotations=5 if ctx.thorough else 3, rounds=2)
+    # corner classes of the computed intermediates (vf/corners.py): IL, IR, parent x / y, CHILD x / y, parent fingerprint -
+    # every byte position 00 / ff and every first / last byte value; one public+private pair step each
+    from .. import corners as cm
+    from ..ref import enc
+    base = int.from_bytes(enc.sha256(b"C02-corner-base-%d" % ctx.seed), "big") % (N - 10**6) + 1
+
+    def cands():
+        for n_, (k, pt) in enumerate(cm.scalar_walk(base, secp)):
+            chain = enc.sha256(b"C02-chain-%d" % n_)
+            i = int.from_bytes(enc.sha256(b"C02-idx-%d" % n_)[:4], "big") % H
+            sec_ = secp.sec(pt)
+            I_ = enc.hmac_sha512(chain, sec_ + i.to_bytes(4, "big"))
+            il = int.from_bytes(I_[:32], "big")
+            if il >= N or (il + k) % N == 0:
+                continue
+            cpt = secp.pub((il + k) % N)
+            yield ({"k": k, "chain": chain.hex()}, i), {"IL": I_[:32], "IR": I_[32:], "x": sec_[1:], "y": pt[1].to_bytes(32, "big"),
+                                                        "cx": cpt[0].to_bytes(32, "big"), "cy": cpt[1].to_bytes(32, "big"), "fp": enc.hash160(sec_)[:4]}
+    kept, st = cm.cover(cands(), {"IL": 32, "IR": 32, "x": 32, "y": 32, "cx": 32, "cy": 32, "fp": 4}, 60000, pairs=ctx.thorough)
+    ctx.extra["intermediate_corner_classes"] = st
+    if st["covered"] != st["classes"]:
+        raise HarnessError("corner cover incomplete: %r" % (st,))
+    ctx.product("intermediate-corners", [{"k": "pairs", "root": c[0], "alphabet": [c[1]], "hist": [c[1]]} for c, _ in kept], execute, chunk=8)
     corners = [("il", 1), ("il", 2), ("kpar", 0), ("il", N - 1), ("child", N - 1), ("child", 1), ("il", 2**255), ("child", 2), ("il", N - 2)]
     cases = [{"k": "corner", "root": root, "i": i, "il": list(c)} for root in roots for i in (0, H - 1, alpha[3]) for c in corners]
     ctx.product("prf-corners", cases, execute)
